@@ -1471,9 +1471,14 @@ class EvolveAppTask(BaseEvolutionTask):
             # app, which ultimately uses migrations, then we want to use
             # those migrations in order to build the models (so subsequent
             # migrations will apply on top of it cleanly).
+            #
+            # The same goes for an app that the pending evolutions are
+            # moving to migrations: a model added by one of the remaining
+            # migrations must be left for that migration to create.
             use_migrations = (
                 supports_migrations and
-                orig_upgrade_method == UpgradeMethod.MIGRATIONS)
+                UpgradeMethod.MIGRATIONS in (orig_upgrade_method,
+                                             upgrade_method))
 
             if use_migrations:
                 logger.debug('Using migrations to create models for %s',
